@@ -70,7 +70,7 @@ impl Property for C01 {
 
     fn cases(&self, tier: Tier) -> u32 {
         match tier {
-            Tier::Quick => 4_000,
+            Tier::Quick => 30_000,
             Tier::Thorough => 60_000,
         }
     }
